@@ -598,7 +598,7 @@ func init() {
 	register(&Property{
 		ID:    "C15",
 		Level: "other",
-		Rules: []Rule{{"R1", ruleR1}, {"R2", ruleR2}, {"R3", ruleR3}, {"R4", ruleR4}, {"R5", ruleR5}, {"R6", ruleR6}, {"V3b", ruleItemReadResult}, {"F7", ruleF7}, {"T345", ruleT345}},
+		Rules: []Rule{{"R1", ruleR1}, {"R2", ruleR2}, {"R3", ruleR3}, {"R4", ruleR4}, {"R5", ruleR5}, {"R6", ruleR6}, {"V3b", ruleItemReadResult}, {"F7", ruleF7}, {"T345", ruleT345}, {"RC1", ruleRC1}},
 		Explanation: "Acquire/release pairing of item references decided path-sensitively on the SSA of every function: R1 the item returned by node.Evict() is released; R2 every path from ItemAlloc ends in a successful install (casItem) or a release; R3 getters return nil, another getter's result, or an item AddRef'd on that path, and never a non-nil item with a non-nil error; R4 mkNode AddRefs the cached item it adopts and freeNodeUnlocked releases it before clearing the slot; R5 every internal user of an AddRef-returning getter releases the item or hands it on; R6 every ItemDecRef site releases a reference gkvlite holds (evicted, allocated, getter-returned, replaced-after-successful-install, or freed node's item) — never a still-installed cached item. Necessary conditions of 'balanced and never premature'; the balance of counts over whole histories and behaviour on fault paths are not decided.",
 		Assumptions: []string{"ItemAlloc hands out an item with one reference", "neutral AfterItemRead returns the item it was given"},
 		ControlSrc:  controlC15,
